@@ -692,6 +692,42 @@ def _discharge(fx, body, bb, t, kind, descr, cg=None, fkey=None):
                     if lo is not None and lo >= 1 and ok_cycle:
                         return ("G2", "countdown: initial value >= 1 by a dominating guard and every path from a decrement back to it passes a `!= 0` test")
             if op == "Sub":
+                # a - count(.. take(a) ..): the count of at most `a` elements
+                lb = body.trace(b, (), lambda tt: callee_name(tt) == "std::iter::Iterator::count")
+                if lb and all(l.kind == "call" and callee_name(l.data[1]) == "std::iter::Iterator::count" for l in lb):
+                    okt = True
+                    for l in lb:
+                        cur = l.data[1]["args"][0]
+                        found = False
+                        for _ in range(8):
+                            dc = def_call(body, cur)
+                            if not dc:
+                                break
+                            if callee_name(dc[1]) == "std::iter::Iterator::take":
+                                found = same_root(body, dc[1]["args"][1], a)
+                                break
+                            cur = dc[1]["args"][0] if dc[1]["args"] else None
+                            if cur is None:
+                                break
+                        okt = okt and found
+                    if okt:
+                        return ("G6", "subtrahend is the number of elements of an iterator limited by take(minuend): it never exceeds the minuend")
+                # a - (a - c): the inner difference never exceeds a (its own subtraction is a separate construct)
+                pb = op_place(b)
+                db = body.single_def(pb["l"]) if (pb is not None and not pb["p"]) else None
+                inner = None
+                if db and db.kind == "assign" and db.node["rv"]["k"] == "use" and op_place(db.node["rv"]["op"]) is not None:
+                    q = op_place(db.node["rv"]["op"])
+                    dq = body.single_def(q["l"])
+                    if proj_path(q) == (("f", "0"),) and dq and dq.kind == "assign" and dq.node["rv"]["k"] == "binop" and dq.node["rv"]["op"].startswith("Sub"):
+                        inner = dq.node["rv"]
+                    elif not q["p"] and dq and dq.kind == "assign" and dq.node["rv"]["k"] == "use" and op_place(dq.node["rv"]["op"]) is not None \
+                            and proj_path(op_place(dq.node["rv"]["op"])) == (("f", "0"),):
+                        d3 = body.single_def(op_place(dq.node["rv"]["op"])["l"])
+                        if d3 and d3.kind == "assign" and d3.node["rv"]["k"] == "binop" and d3.node["rv"]["op"].startswith("Sub"):
+                            inner = d3.node["rv"]
+                if inner is not None and same_root(body, inner["a"], a) and _immutable_param(body, a):
+                    return ("G6", "subtrahend is `minuend - x` (unsigned): it never exceeds the minuend")
                 # a - b where b is a countdown initialised from a
                 cbi = _counter_info(body, b)
                 if cbi and len(cbi["inits"]) == 1 and all(s[1].startswith("Sub") and (s[2] or 0) >= 0 for s in cbi["steps"]) \
